@@ -548,6 +548,15 @@ def step (toks : List String) : String :=
   | "excenc" :: rest => match excSpec rest with
     | .val v r => withBuf r fun buf => encStr (v.encode buf)
     | .specErr => "SPECERR" | .bad => "BADOP"
+  | "excinto" :: rest => match excSpec rest with
+    | .val v _ => (match v.toBytes with | .ok (a, b) => hexOf [a, b] | _ => "PANIC")
+    | .specErr => "SPECERR" | .bad => "BADOP"
+  | "reqlen" :: rest => match reqSpec rest with
+    | .val v _ => (match v.pduLen with | .ok n => toString n | _ => "PANIC")
+    | .specErr => "SPECERR" | .bad => "BADOP"
+  | "rsplen" :: rest => match rspSpec rest with
+    | .val v _ => (match v.pduLen with | .ok n => toString n | _ => "PANIC")
+    | .specErr => "SPECERR" | .bad => "BADOP"
   | "pduenc" :: rest => match pduSpec rest with
     | .val v r => withBuf r fun buf => encStr (v.encode buf)
     | .specErr => "SPECERR" | .bad => "BADOP"
